@@ -16,12 +16,12 @@
 (* self-test, where TLC must report the corresponding invariant.             *)
 EXTENDS Common, Json
 
-CONSTANTS Deviations,   \* subset of {"noRestore", "addsKey", "bakeUnits", "staleTable", "leakBem", "scopeInCache"}
+CONSTANTS Deviations,   \* subset of {"noRestore", "addsKey", "bakeUnits", "staleTable", "leakBem", "scopeInCache", "markupCache", "dropFalsyText"}
           MaxCalls
 
 (* caller-owned objects: content is constant, only the parts above change.
    kind "dict" is a plain dict passed to expand(), "Config" a Config instance created once and reused *)
-Objs == {"m1", "m2", "m3", "m4", "m5", "m6", "m7", "m8", "s1", "s2", "s3", "s4", "s5", "s6", "s7", "s8", "s9", "s10"}
+Objs == {"m1", "m2", "m3", "m4", "m5", "m6", "m7", "m8", "m9", "m10", "m11", "s1", "s2", "s3", "s4", "s5", "s6", "s7", "s8", "s9", "s10"}
 Content ==
   [ m1 |-> [type |-> "markup", kind |-> "dict",   text |-> "T",      table |-> "MS1", opt |-> "A", cache |-> "none", bem |-> FALSE, scope |-> "none"],
     m2 |-> [type |-> "markup", kind |-> "dict",   text |-> "absent", table |-> "MS0", opt |-> "A", cache |-> "none", bem |-> TRUE , scope |-> "none"],
@@ -31,6 +31,10 @@ Content ==
     m6 |-> [type |-> "markup", kind |-> "dict",   text |-> "absent", table |-> "MS0", opt |-> "C", cache |-> "none", bem |-> FALSE, scope |-> "none"],
     m7 |-> [type |-> "markup", kind |-> "dict",   text |-> "absent", table |-> "MS0", opt |-> "D", cache |-> "none", bem |-> FALSE, scope |-> "none"],    \* jsx with a dict-valued option (markup.attributes)
     m8 |-> [type |-> "markup", kind |-> "dict",   text |-> "absent", table |-> "MS0", opt |-> "E", cache |-> "none", bem |-> FALSE, scope |-> "none"],    \* jsx without it
+    \* two markup callers with different variables that pass the same cache dict (markup.parse() keeps nothing in it), and one whose text is present but empty
+    m9 |-> [type |-> "markup", kind |-> "dict",   text |-> "absent", table |-> "MS0", opt |-> "F", cache |-> "k3",   bem |-> FALSE, scope |-> "none"],
+    m10 |-> [type |-> "markup", kind |-> "dict",  text |-> "absent", table |-> "MS0", opt |-> "G", cache |-> "k3",   bem |-> FALSE, scope |-> "none"],
+    m11 |-> [type |-> "markup", kind |-> "dict",  text |-> "E",      table |-> "MS0", opt |-> "A", cache |-> "none", bem |-> FALSE, scope |-> "none"],
     s1 |-> [type |-> "css",    kind |-> "dict",   text |-> "absent", table |-> "S0",  opt |-> "A", cache |-> "k1",   bem |-> FALSE, scope |-> "none"],
     s2 |-> [type |-> "css",    kind |-> "dict",   text |-> "absent", table |-> "S0",  opt |-> "B", cache |-> "k1",   bem |-> FALSE, scope |-> "none"],
     s3 |-> [type |-> "css",    kind |-> "dict",   text |-> "absent", table |-> "S1",  opt |-> "A", cache |-> "k1",   bem |-> FALSE, scope |-> "none"],
@@ -41,7 +45,7 @@ Content ==
     s8 |-> [type |-> "css",    kind |-> "dict",   text |-> "absent", table |-> "S0",  opt |-> "A", cache |-> "k1",   bem |-> FALSE, scope |-> "property"],
     s9 |-> [type |-> "css",    kind |-> "dict",   text |-> "absent", table |-> "S2",  opt |-> "D", cache |-> "none", bem |-> FALSE, scope |-> "none"],     \* a dict-valued option (stylesheet.unitAliases)
     s10 |-> [type |-> "css",   kind |-> "dict",   text |-> "absent", table |-> "S3",  opt |-> "B", cache |-> "k1",   bem |-> FALSE, scope |-> "none"] ]    \* S3: a table that cannot be converted - every call raises
-Caches == {"k1", "k2"}
+Caches == {"k1", "k2", "k3"}
 MarkupAbbrs == {"ok", "wrap", "badparse", "badsnippet", "bem", "var"}          \* "var": a snippet that reads a variable of the configuration      \* "badsnippet" fails while snippets are resolved iff the table is MS1
 CssAbbrs == {"num", "tab", "plain", "raw", "fnarg", "fnbare", "alias", "badparse"}                     \* "num": a snippet supplies a number that takes the caller's unit; "raw": a raw snippet (section scope); "fnarg" / "fnbare": a function keyword of a snippet with and without arguments
 
@@ -69,7 +73,9 @@ ParseAbbr == /\ pc = "begun" /\ C.type = "markup"
              /\ IF cur[2] = "badparse" THEN Done(PERR) /\ UNCHANGED <<userText, cache, live, seenText, ncalls>>
                 ELSE pc' = "parsed" /\ UNCHANGED <<userText, cache, live, cur, seenText, results, ncalls>>
 RemoveText == /\ pc = "parsed"
-              /\ userText' = IF seenText = "T" THEN [userText EXCEPT ![cur[1]] = "None"] ELSE userText
+              /\ userText' = IF seenText = "T" THEN [userText EXCEPT ![cur[1]] = "None"]
+                              ELSE IF seenText = "E" /\ Dev("dropFalsyText") THEN [userText EXCEPT ![cur[1]] = "absent"]      \* an empty text is not touched
+                              ELSE userText
               /\ pc' = "removed" /\ UNCHANGED <<cache, live, cur, seenText, results, ncalls>>
 ResolveSnippets ==
     /\ pc = "removed"
@@ -77,15 +83,19 @@ ResolveSnippets ==
        THEN /\ Done(PERR)                           \* the finally block restores on the way out
             /\ userText' = IF Dev("noRestore") THEN userText ELSE [userText EXCEPT ![cur[1]] = seenText]
             /\ UNCHANGED <<cache, live, seenText, ncalls>>
-       ELSE pc' = "resolved" /\ UNCHANGED <<userText, cache, live, cur, seenText, results, ncalls>>
+       ELSE /\ pc' = "resolved"
+            /\ cache' = IF Dev("markupCache") /\ C.cache # "none" /\ cache[C.cache].baked = "none" THEN [cache EXCEPT ![C.cache].baked = C.opt] ELSE cache
+            /\ UNCHANGED <<userText, live, cur, seenText, results, ncalls>>
 Transform == /\ pc = "resolved"
              /\ live' = IF C.bem /\ cur[2] = "bem" /\ Dev("leakBem") THEN live + 1 ELSE live
              /\ pc' = "transformed" /\ UNCHANGED <<userText, cache, cur, seenText, results, ncalls>>
 RestoreText == /\ pc = "transformed"
                /\ userText' = IF seenText = "absent"
                               THEN (IF Dev("addsKey") THEN [userText EXCEPT ![cur[1]] = "None"] ELSE userText)
+                              ELSE IF seenText = "E" THEN userText                 \* restored only if it was removed
                               ELSE [userText EXCEPT ![cur[1]] = seenText]
-               /\ Done([kind |-> "markup", text |-> seenText, table |-> C.table, opt |-> C.opt, scope |-> "none"])
+               /\ Done([kind |-> "markup", text |-> seenText, table |-> C.table, scope |-> "none",
+                        opt |-> IF Dev("markupCache") /\ C.cache # "none" /\ cache[C.cache].baked # "none" THEN cache[C.cache].baked ELSE C.opt])
                /\ UNCHANGED <<cache, live, seenText, ncalls>>
 
 (* -------------------------------------------------------- stylesheet.parse() *)
